@@ -98,6 +98,17 @@ CHECKS = [
         "Trusted: reference AVM, O2 index dimension. Reads of up to three members.",
         "explicit-state exploration of the concrete AVM over whole transaction groups; invariant = tealer's per-member sub-contexts",
         "DESIGN.md 3/C10"),
+    chk("C12", "model_checking",
+        "G2 programs over a mixed alphabet and G1 raw layouts x every simple dispatch path (<= 4 main blocks) x orders of several "
+        "functions built from the same contract: path [B0] must give a main graph isomorphic to the contract's (ids, text, lines, "
+        "ordered edges, shared subroutine objects, no shared main objects); longer paths must replace exactly the off-path "
+        "successors by one-instruction error blocks and drop unreachable blocks; E1 runs whose main-level block walk starts with "
+        "the path must be admitted by the function's contexts (C06-C09 clauses); each function's snapshot (graph + all contexts "
+        "incl. the 62 sub-contexts per block) must not depend on which other functions were built or in which order; the "
+        "contract's own graph snapshot must be unchanged afterwards.",
+        "Trusted: reference AVM for the context clause. Dispatch paths up to 4 blocks; up to 3 functions per order.",
+        "bounded-exhaustive enumeration of (program, dispatch path, build order) with explicit-state exploration of the concrete AVM filtered by the path automaton; differential snapshots across all build orders",
+        "DESIGN.md 3/C12"),
 ]
 
 _PENDING = "check not built yet in this session (work in progress; see DESIGN.md section 3 for the planned check)"
